@@ -10,6 +10,10 @@ def for_property(pid, tier):
 
 
 MODELS = [
+    {"name": "MC_BigNat (base 7, all pairs 0..120: add, sub, mul, compare, divmod, base conversion vs native arithmetic)",
+     "module": "MC_BigNat", "cfg": "MC_BigNat.cfg", "props": ["C11", "C16"], "tiers": ["quick", "thorough"], "workers": 8, "timeout": 900},
+    {"name": "MC_Watchdog (4 providers, quorum 2, band +-2, grid of 6 results, all rounds from all states)",
+     "module": "MC_Watchdog", "cfg": "MC_Watchdog.cfg", "props": ["C17"], "tiers": ["quick", "thorough"], "workers": 8, "timeout": 600},
     {"name": "MC_Tree (<= 4 blocks, diffs {1,2}, thr {1,2}, mainnet + regtest with depth bound 2)",
      "module": "MC_Tree", "cfg": "MC_Tree_quick.cfg", "props": ["C02", "C03", "C04", "C07", "C10", "C14"],
      "tiers": ["quick"], "workers": 12, "timeout": 600},
